@@ -14,6 +14,17 @@
 (*     ratio blocks-after-the-fork / slots-from-the-fork-to-the-last-block; *)
 (*   * Preferred returns a maximal candidate.                               *)
 (*                                                                          *)
+(* Two kinds of tips (TipKind).  "slots": a tip is [bn, vrf, slots] and the *)
+(* legacy ratio follows from the slots (small spans, ratios far apart).     *)
+(* "ratio": a tip is [bn, vrf, blocks, span], it carries the legacy density *)
+(* as the pair blocks-after-the-fork / slots-after-the-fork (what a tip     *)
+(* without per-block slots reports, and what a sparse chain over a long     *)
+(* span has): the RESOLUTION dimension.  The domain holds ratios at several *)
+(* magnitudes (spans from a few slots to 10^8), ratios that are equal       *)
+(* through different totals (1/s = 2/2s), and ratios that are unequal but   *)
+(* arbitrarily close (n/s against n/(s+1)).  Density is an exact rational:  *)
+(* compared by cross-multiplication, never "approximately".                 *)
+(*                                                                          *)
 (* A tip is [bn, vrf, slots]; bn and vrf are only ever compared (the driver *)
 (* maps them monotonically onto uint64 / 32..64-byte strings), slots, fork  *)
 (* slot and window enter through differences (the driver maps them          *)
@@ -28,11 +39,29 @@ CONSTANTS MaxBN,      \* tip block numbers 0..MaxBN
           DepthSet,   \* name of the set of <<fork block, current tip block, k>> cases
           TrimShallow,\* TRUE: shallow depth cases keep one (fork slot, window) only (they ignore both)
           Arity,      \* 2: cases are (context, a, b); 3: (context, a, b, d)
-          SampleMod   \* triples: every case is checked, 1/SampleMod of them are emitted
+          SampleMod,  \* triples: every case is checked, 1/SampleMod of them are emitted
+          TipKind,    \* "slots" or "ratio" (see above)
+          RBlocks,    \* ratio tips: numbers of blocks after the fork (> 0)
+          SpanBases,  \* ratio tips: spans are base * mult + offset ...
+          SpanMults,
+          SpanOffsets,
+          ResRoot     \* ratio tips: the domain must hold unequal ratios closer than 1 / ResRoot^2
 
 NoVRF == 0 - 1
 
-Tips == [bn : 0..MaxBN, vrf : {NoVRF} \cup 0..MaxVRF, slots : SUBSET (1..MaxSlot)]
+ASSUME TipKind \in { "slots", "ratio" }
+ASSUME TipKind = "ratio" => Windows = {0}   \* a ratio tip has no per-block slots, hence no window count
+
+\* <<blocks, span>>: the empty suffix, and every blocks / (base * mult + offset) that a chain
+\* can have (at most one block per slot)
+Ratios == { <<0, 0>> } \cup
+          { r \in { <<n, b * m + o>> : n \in RBlocks, b \in SpanBases, m \in SpanMults, o \in SpanOffsets } :
+                r[1] > 0 /\ r[2] >= r[1] }
+
+Tips == IF TipKind = "ratio"
+        THEN { [bn |-> n, vrf |-> v, slots |-> {}, blocks |-> r[1], span |-> r[2]] :
+                   n \in 0..MaxBN, v \in {NoVRF} \cup 0..MaxVRF, r \in Ratios }
+        ELSE [bn : 0..MaxBN, vrf : {NoVRF} \cup 0..MaxVRF, slots : SUBSET (1..MaxSlot)]
 
 \* <<fb, tb, k>>: depth = k (shallow, boundary), depth = k+1 (deep, boundary),
 \* current tip behind the fork point (no rollback at all), k = 0
@@ -40,6 +69,7 @@ DepthCases ==
     CASE DepthSet = "std"  -> { <<0, 1, 1>>, <<0, 2, 1>>, <<2, 0, 0>> }
       [] DepthSet = "full" -> { <<0, 1, 1>>, <<0, 2, 1>>, <<2, 0, 0>>, <<0, 1, 0>>, <<1, 1, 0>> }
       [] DepthSet = "min"  -> { <<0, 1, 1>>, <<0, 2, 1>> }
+      [] DepthSet = "deep" -> { <<0, 2, 1>> }
 
 Contexts == [fb : { d[1] : d \in DepthCases }, tb : { d[2] : d \in DepthCases }, k : { d[3] : d \in DepthCases },
              fs : ForkSlots, w : Windows]
@@ -63,8 +93,9 @@ Ctxs == { x \in Contexts :
 (* density                                                                   *)
 InWindow(t, fs, w)  == Cardinality({ s \in t.slots : s > fs /\ s - fs <= w })
 After(t, fs)        == { s \in t.slots : s > fs }
-LegacyBlocks(t, fs) == Cardinality(After(t, fs))
-LegacySpan(t, fs)   == IF After(t, fs) = {} THEN 0 ELSE MaxOf(After(t, fs)) - fs
+LegacyBlocks(t, fs) == IF TipKind = "ratio" THEN t.blocks ELSE Cardinality(After(t, fs))
+LegacySpan(t, fs)   == IF TipKind = "ratio" THEN t.span
+                       ELSE IF After(t, fs) = {} THEN 0 ELSE MaxOf(After(t, fs)) - fs
 \* ratio comparison by cross-multiplication; a chain with no block after the fork has density 0
 LegacyDenser(a, b, fs) == LegacyBlocks(a, fs) > 0
                           /\ (LegacyBlocks(b, fs) = 0
@@ -94,7 +125,7 @@ FragmentCompare(a, b, x) ==
 Cmp(a, b, x, mode) == CASE mode = "praos"   -> Compare(a, b)
                         [] mode = "density" -> CompareWithDensity(a, b, x)
                         [] mode = "fragment" -> FragmentCompare(a, b, x)
-Modes == { "praos", "density", "fragment" }
+Modes == IF TipKind = "ratio" THEN { "praos", "density" } ELSE { "praos", "density", "fragment" }
 
 (* Preferred: any maximal candidate; the reference left fold keeps the       *)
 (* earlier candidate on ties.  Both are phrased over the matrix of pairwise   *)
@@ -138,7 +169,18 @@ DensityOrderIsDenser == L2(DensityOrder(A, B, X) = (IF Denser(A, B, X) THEN 1 EL
 DenserIsStrict == L2(~(Denser(A, B, X) /\ Denser(B, A, X)))
 DeepTieIsPraos == L2((Deep(X) /\ ~Denser(A, B, X) /\ ~Denser(B, A, X))
                      => CompareWithDensity(A, B, X) = Compare(A, B))
+\* the legacy ratio is exact: between two non-empty suffixes the sign of the cross product decides a deep
+\* fork, however small the difference and whatever the lengths and VRF outputs say; only the SAME ratio
+\* (also when reached through different totals) falls back to the ordinary rule
+Cross(a, b, fs) == LegacyBlocks(a, fs) * LegacySpan(b, fs) - LegacyBlocks(b, fs) * LegacySpan(a, fs)
+BothNonEmpty(a, b, fs) == LegacyBlocks(a, fs) > 0 /\ LegacyBlocks(b, fs) > 0
+UnequalRatioDecides == L2((Deep(X) /\ X.w = 0 /\ BothNonEmpty(A, B, X.fs) /\ Cross(A, B, X.fs) # 0)
+                          => CompareWithDensity(A, B, X) = (IF Cross(A, B, X.fs) > 0 THEN 1 ELSE 0 - 1))
+EqualRatioTies      == L2((Deep(X) /\ X.w = 0 /\ BothNonEmpty(A, B, X.fs) /\ Cross(A, B, X.fs) = 0)
+                          => CompareWithDensity(A, B, X) = Compare(A, B))
 \* ---- triples
+\* a density tie is an equivalence: it is the equality of a key, not a closeness relation
+DensityTieTransitive == L3((DensityOrder(A, B, X) = 0 /\ DensityOrder(B, D, X) = 0) => DensityOrder(A, D, X) = 0)
 Transitive     == L3(\A m \in Modes :
                       LET ab == Cmp(A, B, X, m)  bd == Cmp(B, D, X, m)  ad == Cmp(A, D, X, m)
                       IN  /\ (ab >= 0 /\ bd >= 0) => ad >= 0
@@ -167,6 +209,20 @@ ASSUME \A d \in DeepDom : \A s \in 0..2 :
           /\ (d[2] <= d[1] => ~IsDeepFork(d[1], d[2], d[3]))
 
 --------------------------------------------------------------------------
+(* resolution coverage of the ratio domain: it must hold (1) one density reached through different    *)
+(* totals, (2) unequal densities closer than 1 / ResRoot^2 (|n1/s1 - n2/s2| = |cross| / (s1 * s2)),      *)
+(* (3) ordinary densities that are far apart (at least 1/4)                                            *)
+Abs(i) == IF i < 0 THEN 0 - i ELSE i
+RCross(r1, r2) == r1[1] * r2[2] - r2[1] * r1[2]
+RPos == { r \in Ratios : r[1] > 0 }
+ASSUME TipKind = "ratio" =>
+          /\ \E r1, r2 \in RPos : r1 # r2 /\ RCross(r1, r2) = 0
+          /\ \E r1, r2 \in RPos : RCross(r1, r2) # 0
+                                   /\ Abs(RCross(r1, r2)) < (r1[2] \div ResRoot) * (r2[2] \div ResRoot)
+          /\ (\E b \in SpanBases : b < 100) =>
+                \E r1, r2 \in RPos : r1[2] < 1000 /\ r2[2] < 1000 /\ 4 * Abs(RCross(r1, r2)) >= r1[2] * r2[2]
+
+--------------------------------------------------------------------------
 (* emission                                                                  *)
 Seed == IF "VERIF_SEED" \in DOMAIN IOEnv THEN atoi(IOEnv.VERIF_SEED) ELSE 1
 
@@ -185,7 +241,7 @@ CtxTab  == [x \in 1..NC |-> CtxArr(CS[x])]
 DensTab == [x \in 1..NC |-> [t \in 1..NT |-> Dens(TS[t], CS[x])]]
 
 PairRow(x, a, b) ==
-    [ctx |-> CtxTab[x], deep |-> Deep(CS[x]), a |-> TipTab[a], b |-> TipTab[b],
+    [kind |-> TipKind, ctx |-> CtxTab[x], deep |-> Deep(CS[x]), a |-> TipTab[a], b |-> TipTab[b],
      da |-> DensTab[x][a], db |-> DensTab[x][b],
      cmp |-> Compare(TS[a], TS[b]), cwd |-> CompareWithDensity(TS[a], TS[b], CS[x]),
      frag |-> FragmentCompare(TS[a], TS[b], CS[x])]
@@ -194,7 +250,7 @@ PairAt(i) == LET j == i - 1
 
 TripleRow(x, a, b, d) ==
     LET seq == << TS[a], TS[b], TS[d] >> IN
-    [ctx |-> CtxTab[x], deep |-> Deep(CS[x]), t |-> << TipTab[a], TipTab[b], TipTab[d] >>,
+    [kind |-> TipKind, ctx |-> CtxTab[x], deep |-> Deep(CS[x]), t |-> << TipTab[a], TipTab[b], TipTab[d] >>,
      dens |-> << DensTab[x][a], DensTab[x][b], DensTab[x][d] >>,
      max |-> MaxIdx(seq, CS[x], "praos"), maxd |-> MaxIdx(seq, CS[x], "density"),
      cab |-> CompareWithDensity(TS[a], TS[b], CS[x]), cbd |-> CompareWithDensity(TS[b], TS[d], CS[x]),
